@@ -435,7 +435,10 @@ def run(chk):
         for d in depths:
             # two frame sizes (3 and 5 slots per level), so that every stack height is left behind by some depth
             shape = ("fn f(n) { if n == 0 { 1 / 0 } else { 1 + f(n - 1) } } f(%d);" if d % 2 else "fn f(n, m) { if n == 0 { [1][m] } else { 1 + (2 + f(n - 1, m)) } } f(%d, 9);") % d
-            depth_progs.append(shape + " @ true { let l1 = NP; let l2 = PL; let l3 = l1 + l2; puts(l3 - l3); } @ end { let e1 = 1; let e2 = [e1]; let e3 = 3; let e4 = 4; puts(len(e2)); }")
+            # actions with few and with many locals: the more slots an action claims, the wider the band of leftover heights it reaches
+            many = " ".join("let m%d = %s;" % (j, "PL" if j == 0 else "m%d + 1" % (j - 1)) for j in range(40 + d % 23))
+            depth_progs.append(shape + " @ true { let l1 = NP; let l2 = PL; let l3 = l1 + l2; puts(l3 - l3); } @ true { " + many + " puts(m0 - m0); }"
+                               " @ end { let e1 = 1; let e2 = [e1]; let e3 = 3; let e4 = 4; puts(len(e2)); }")
         pcap_d = os.path.join(work, "depth.pcap")
         with open(pcap_d, "wb") as f:
             f.write(one_packet_pcap(2))
